@@ -665,6 +665,73 @@ def translate_mpc(tree):
             '  map (fun z => gen_expand_tuple x perm f z) X.']
 
 
+def translate_solve_dispatch(tree):
+    """solve / solve_linear / solve_eigen as dispatch wrappers: which callee, which positional arguments, when the result is
+    expanded.  The expansion statements themselves are translated by translate_solve."""
+    def sig(name):
+        return [a.arg for a in t2.find_def(tree, name).args.args]
+    if sig('solve') != ['A', 'b', 'x', 'I', 'solver'] or sig('solve_linear') != ['A', 'b', 'x', 'I', 'solver'] \
+            or sig('solve_eigen') != ['A', 'M', 'x', 'I', 'solver']:
+        raise TranslateError('solve signatures: ' + repr((sig('solve'), sig('solve_linear'), sig('solve_eigen'))))
+    body = [s for s in _body(t2.find_def(tree, 'solve'))
+            if not (isinstance(s, ast.Expr) and isinstance(s.value, ast.Call) and t2.src(s.value.func) == 'logger.info')]
+    if len(body) != 2:
+        raise TranslateError('solve: body')
+    _expect(body[1], 'return out', 'solve return')
+    br = body[0]
+    tests, calls = [], []
+    while isinstance(br, ast.If):
+        tests.append(t2.src(br.test))
+        st = t2.only(br.body, 'solve branch')
+        if not (isinstance(st, ast.Assign) and t2.src(st.targets[0]) == 'out' and isinstance(st.value, ast.Call)):
+            raise TranslateError('solve branch: ' + t2.src(st))
+        calls.append(st.value)
+        if len(br.orelse) == 1 and isinstance(br.orelse[0], ast.If):
+            br = br.orelse[0]
+        else:
+            if not (len(br.orelse) == 1 and isinstance(br.orelse[0], ast.Raise)):
+                raise TranslateError('solve: final else must raise')
+            break
+    if tests != ['isinstance(b, spmatrix)', 'isinstance(b, ndarray)']:
+        raise TranslateError('solve dispatch tests: ' + repr(tests))
+    env = {'A': 'A', 'x': 'x', 'I': 'Ia'}
+
+    def args_of(call, callee, second):
+        if t2.src(call.func) != callee or [k.arg for k in call.keywords] != [None]:
+            raise TranslateError(f'solve: expected {callee}(..., **kwargs): ' + t2.src(call))
+        names = [t2.src(a) for a in call.args]
+        if len(names) != 5 or names[4] != 'solver':
+            raise TranslateError('solve: arguments ' + repr(names))
+        m = dict(env)
+        m['b'] = second
+        try:
+            return [m[n] for n in names[:4]]
+        except KeyError as e:
+            raise TranslateError('solve: unknown argument ' + str(e))
+    ae = args_of(calls[0], 'solve_eigen', 'B')
+    al = args_of(calls[1], 'solve_linear', 'v')
+    # solve_linear / solve_eigen: default solver, guarded expansion, plain call otherwise
+    for name, second, ret in (('solve_linear', 'b', 'return solver(A, b, **kwargs)'), ('solve_eigen', 'M', 'return solver(A, M, **kwargs)')):
+        bd = _body(t2.find_def(tree, name))
+        if len(bd) != 3 or not (isinstance(bd[0], ast.If) and t2.src(bd[0].test) == 'solver is None') \
+                or not (isinstance(bd[1], ast.If) and t2.src(bd[1].test) == 'x is not None and I is not None' and not bd[1].orelse):
+            raise TranslateError(name + ': structure')
+        _expect(bd[2], ret, name + ' plain call')
+    return [
+        'Definition gen_solve_linear (lin : mat -> vec -> vec) (A : mat) (b : vec) (x : option vec) (Ia : option (@iarg R)) : vec :=\n'
+        '  match x, Ia with\n  | Some x\', Some (IArr l) => gen_expand x\' l (lin A b)\n'
+        '  | Some x\', Some (ITup perm f) => gen_expand_tuple x\' perm f (lin A b)\n  | _, _ => lin A b\n  end.',
+        'Definition gen_solve_eigen (eig : mat -> mat -> vec * list vec) (A M : mat) (x : option vec) (Ia : option (@iarg R)) : vec * list vec :=\n'
+        '  match x, Ia with\n  | Some x\', Some (IArr l) => (fst (eig A M), gen_expand_eig x\' l (snd (eig A M)))\n'
+        '  | Some x\', Some (ITup perm f) => (fst (eig A M), gen_expand_tuple_eig x\' perm f (snd (eig A M)))\n  | _, _ => eig A M\n  end.',
+        'Definition gen_solve (lin : mat -> vec -> vec) (eig : mat -> mat -> vec * list vec) (A : mat) (b : @rhs R) (x : option vec) '
+        '(Ia : option (@iarg R)) : option (@sol R) :=\n'
+        '  match b with\n'
+        f'  | RMat B => Some (SEig (fst (gen_solve_eigen eig {" ".join(ae)})) (snd (gen_solve_eigen eig {" ".join(ae)})))\n'
+        f'  | RVec v => Some (SVec (gen_solve_linear lin {" ".join(al)}))\n'
+        '  | ROther => None\n  end.']
+
+
 def translate():
     tree = t2.parse(SRC)
     idx_def, enf = translate_enforce(t2.find_def(tree, 'enforce'))
@@ -674,11 +741,12 @@ def translate():
     parts += enf
     parts += translate_penalize(t2.find_def(tree, 'penalize'))
     parts += translate_mpc(tree)
+    parts += translate_solve_dispatch(tree)
     sec = '\n'.join(parts)
     return f'''(* GENERATED by vlib/c05_tr.py from {SRC} — do not edit *)
 From Coq Require Import List ZArith.
 Import ListNotations.
-Require Import Base.C05_Np Model.C05_BC Model.C05_MPC Model.C05_Ext.
+Require Import Base.C05_Np Model.C05_BC Model.C05_MPC Model.C05_Ext Model.C05_Solve.
 
 (* enforce: "set rows on lhs to zero" — positions of the stored values to be zeroed *)
 {idx_def}
